@@ -18,6 +18,7 @@ limitations under the License.
 
 #include <algorithm>
 #include <cmath>
+#include <cstdlib>
 #include <cstring>
 #include <iomanip>
 #include <limits>
@@ -67,7 +68,14 @@ bool stringToDouble(const std::string &in, double &out)
     try {
         out = std::stod(in);
     } catch (std::out_of_range &) {
-        return false;
+        // std::stod reports every ERANGE of strtod, including a result that underflows to a
+        // subnormal number or to zero. Those values are representable (and are what the printer
+        // writes for a subnormal number), only an overflow is out of range of the double type.
+        double value = std::strtod(in.c_str(), nullptr);
+        if (std::isinf(value)) {
+            return false;
+        }
+        out = value;
     }
 
     return true;
